@@ -32,7 +32,7 @@ Init == /\ prog \in {[cls |-> c, steps |-> "g", comp |-> 0, ucons |-> <<>>, lmis
         /\ solves = <<>> /\ phase = "build" /\ epoch = 0 /\ sent = <<>> /\ native = <<>> /\ dualpos = <<>>
         /\ cache = 0 /\ nClassLmi = 0 /\ nPartRows = 0 /\ hist = <<>>
 NFeat == (IF prog.steps = "gg" THEN 1 ELSE 0) + prog.comp + Len(prog.ucons) + Len(prog.lmis) + (prog.metrics - 1)
-         + prog.part + prog.lmimetric + prog.unsent_lmi
+         + (IF prog.part = 0 THEN 0 ELSE 1) + prog.lmimetric + prog.unsent_lmi
 CanAdd == phase = "build" /\ NFeat < MaxFeatures
 InSeq(s, x) == \E i \in 1..Len(s) : s[i] = x
 Feature ==
@@ -42,7 +42,7 @@ Feature ==
      \/ "cons" \in Allowed /\ \E c \in ConsCodes : ~InSeq(prog.ucons, c) /\ (c = "ci" => prog.comp = 1) /\ prog' = [prog EXCEPT !.ucons = Append(@, c)]
      \/ "lmi" \in Allowed /\ \E c \in LmiCodes : Len(prog.lmis) < 2 /\ prog' = [prog EXCEPT !.lmis = Append(@, c)]
      \/ "metrics" \in Allowed /\ prog.metrics = 1 /\ prog' = [prog EXCEPT !.metrics = 2]
-     \/ "part" \in Allowed /\ prog.part = 0 /\ prog' = [prog EXCEPT !.part = 1]
+     \/ "part" \in Allowed /\ prog.part = 0 /\ \E w \in {1, 2} : prog' = [prog EXCEPT !.part = w]   \* 1: pep.declare_block_partition(d)  2: BlockPartition(d)
      \/ "lmimetric" \in Allowed /\ prog.lmimetric = 0 /\ Len(prog.lmis) > 0 /\ prog.lmis[1] # "L1" /\ prog' = [prog EXCEPT !.lmimetric = 1]
      \/ "unsent" \in Allowed /\ prog.unsent_lmi = 0 /\ prog' = [prog EXCEPT !.unsent_lmi = 1]
   /\ UNCHANGED <<solves, phase, epoch, sent, native, dualpos, cache, nClassLmi, nPartRows, hist>>
@@ -88,7 +88,7 @@ Solve ==
        /\ (o.edit = "feasible-again" => Infeasible(solves))
        /\ (o.edit = "infeasible" => ~Infeasible(solves))
        /\ (o.edit = "tsample" => prog.cls = 8 /\ \A i \in 1..Len(solves) : solves[i].edit # "tsample")   \* sample the adjoint once more
-       /\ (o.edit = "block" => prog.part = 1 /\ \A i \in 1..Len(solves) : solves[i].edit # "block")   \* decompose one more point
+       /\ (o.edit = "block" => prog.part # 0 /\ \A i \in 1..Len(solves) : solves[i].edit # "block")   \* decompose one more point
        /\ (o.verbose = 1 => o.heur = "none" /\ o.mode = "dual")
        /\ (Plain => o.mode = "dual" /\ o.heur = "none" /\ o.verbose = 0)
        /\ LET sv == Append(solves, o)
@@ -127,7 +127,7 @@ SentOnce == phase = "build" \/
    /\ Cardinality({k \in 1..Len(sent) : sent[k].src = "metric"}) = prog.metrics + ed.metric
    /\ Cardinality({k \in 1..Len(sent) : sent[k].src = "class" /\ sent[k].k = "lmi"}) = ClassLmis(prog.cls)
    /\ Cardinality({k \in 1..Len(sent) : sent[k].src = "part"})
-        = (IF prog.part = 1 THEN 4 + 5 * Cardinality({i \in 1..Len(solves) : solves[i].edit = "block"}) ELSE 0)
+        = (IF prog.part # 0 THEN 4 + 5 * Cardinality({i \in 1..Len(solves) : solves[i].edit = "block"}) ELSE 0)
 \* C13: a cached value belongs to the current epoch
 Fresh == cache # 0 => cache = epoch
 \* C05: the native list has exactly one entry per scalar, 1 + n*n per LMI, the Gram PSD first, one extra row with a heuristic
